@@ -441,6 +441,22 @@ func reiterScenarios(c *CheckRun) []*Scenario {
 			out = append(out, s)
 		}
 	}
+	// Prefix / Range sequences re-iterated over self-similar key sets (the node reached by the prefix has a child
+	// under the prefix's own first byte: aa, ab, b with Prefix(a); aba, abb, ac, b with Prefix(ab)): a sequence that
+	// redoes its subtree selection from where the first pass ended yields less the second time
+	for ti, t := range [][]int{{2, 2, 1, 1}, {3, 3, 2, 1, 2}, {2, 2, 2, 1, 1}} {
+		if ti > 0 && c.Tier == "quick" {
+			break // the four-key sets cost ~10^4 paths each
+		}
+		var ops [][2]int
+		for _, l := range t[:len(t)-1] {
+			ops = append(ops, [2]int{opInsert, aSpec(0, l)})
+		}
+		pl := t[len(t)-1]
+		for _, m := range []int{2, 3} {
+			out = append(out, histB{kind: kindAlphaB, mask: ckReiter, ops: ops, extra: []int{m, aSpec(0, pl), aSpec(0, pl)}, label: "self-similar keys, sequence re-iterated"}.scn())
+		}
+	}
 	base := histFamiliesW(c, false, true)
 	i := 0
 	for _, b := range base {
